@@ -28,23 +28,88 @@ use common::{json, machinery_failure, Report, Value};
 use loom::sync::atomic::AtomicUsize as LAtomicUsize;
 use loom::sync::Arc;
 
-type V = boxcar::Vec<u64>;
+type V = boxcar::Vec<D>;
+
+/// Item type of the bodies: an id whose creations and destructions are counted (plain std
+/// atomics outside loom's model: the bookkeeping is not part of what is explored). At the end of
+/// every execution each item that was created must have been destroyed exactly once.
+pub struct D(u64);
+const IDS: usize = 2048;
+static MADE: [std::sync::atomic::AtomicU32; IDS] = [const { std::sync::atomic::AtomicU32::new(0) }; IDS];
+static DROPPED: [std::sync::atomic::AtomicU32; IDS] = [const { std::sync::atomic::AtomicU32::new(0) }; IDS];
+fn d(id: u64) -> D {
+    MADE[id as usize % IDS].fetch_add(1, O::Relaxed);
+    D(id)
+}
+impl Drop for D {
+    fn drop(&mut self) {
+        DROPPED[self.0 as usize % IDS].fetch_add(1, O::Relaxed);
+    }
+}
+fn reset_drops() {
+    for i in 0..IDS {
+        MADE[i].store(0, O::Relaxed);
+        DROPPED[i].store(0, O::Relaxed);
+    }
+}
+/// called after the vector (last handle) is gone
+fn drop_accounting() {
+    // only the C11 run judges it (there the value oracle is off); in the C08 / C09 runs the first
+    // failing execution must be one of their own kind
+    if !std::env::var("E3_MODE").map_or(false, |v| v == "c11") {
+        return;
+    }
+    for i in 0..IDS {
+        let (m, k) = (MADE[i].load(O::Relaxed), DROPPED[i].load(O::Relaxed));
+        assert!(m == k, "drop accounting: item {i} was created {m} times and destroyed {k} times after the vector was dropped");
+    }
+}
 
 static EXECUTIONS: StdU64 = StdU64::new(0);
 static OUTCOMES: Mutex<BTreeSet<String>> = Mutex::new(BTreeSet::new());
 
-fn fill(id: &u64, cols: &mut [Utf32String]) {
+/// In the C11 run of the bodies (E3_MODE=c11) only the drop accounting speaks: the value oracle
+/// is switched off, so that an execution that violates it still reaches the accounting.
+fn c11_mode() -> bool {
+    static M: std::sync::OnceLock<bool> = std::sync::OnceLock::new();
+    // (the C09 run also leaves the value oracle to the C08 run: loom stops at the first failing
+    // execution, and that must be a race report if the change under test has one)
+    *M.get_or_init(|| std::env::var("E3_MODE").map_or(false, |v| v == "c11" || v == "c09"))
+}
+macro_rules! oracle {
+    ($($t:tt)*) => {
+        if !c11_mode() {
+            assert!($($t)*);
+        }
+    };
+}
+macro_rules! oracle_eq {
+    ($($t:tt)*) => {
+        if !c11_mode() {
+            assert_eq!($($t)*);
+        }
+    };
+}
+fn soft<T>(o: Option<T>, msg: &str) -> Option<T> {
+    if o.is_none() && !c11_mode() {
+        panic!("{msg}");
+    }
+    o
+}
+
+fn fill(id: &D, cols: &mut [Utf32String]) {
+    let id = id.0;
     for (k, c) in cols.iter_mut().enumerate() {
         *c = Utf32String::from(format!("{id}:{k}"));
     }
 }
 
 /// A looked-up item must be complete: value and every column as its fill callback wrote them.
-fn check_item(item: &Item<'_, u64>, cols: u32) -> u64 {
-    let id = *item.data;
-    assert_eq!(item.matcher_columns.len(), cols as usize, "wrong number of columns");
+fn check_item(item: &Item<'_, D>, cols: u32) -> u64 {
+    let id = item.data.0;
+    oracle_eq!(item.matcher_columns.len(), cols as usize, "wrong number of columns");
     for (k, c) in item.matcher_columns.iter().enumerate() {
-        assert_eq!(c.to_string(), format!("{id}:{k}"), "torn or foreign item: column {k} of item {id}");
+        oracle_eq!(c.to_string(), format!("{id}:{k}"), "torn or foreign item: column {k} of item {id}");
     }
     id
 }
@@ -61,19 +126,21 @@ const NONE: usize = usize::MAX;
 /// thread reads concurrently.
 fn body_push_push_reader(cap: u32, cols: u32) {
     verif_loom::reset();
+    reset_drops();
     EXECUTIONS.fetch_add(1, O::Relaxed);
     let v: Arc<V> = Arc::new(V::with_capacity(cap, cols));
     let announced = Arc::new(LAtomicUsize::new(NONE));
     let t1 = {
         let v = v.clone();
         loom::thread::spawn(move || {
-            let a = v.push(1, fill);
+            let a = v.push(d(1), fill);
             // own push has returned: the item must be there, complete, from now on
-            let it = v.get(a).expect("own completed push not visible");
-            assert_eq!(check_item(&it, cols), 1);
-            let b = v.push(2, fill);
-            assert!(b > a, "indices of one thread's consecutive pushes must increase");
-            assert!(v.count() > b, "count smaller than a completed push's index + 1");
+            if let Some(it) = soft(v.get(a), "own completed push not visible") {
+                oracle_eq!(check_item(&it, cols), 1);
+            }
+            let b = v.push(d(2), fill);
+            oracle!(b > a, "indices of one thread's consecutive pushes must increase");
+            oracle!(v.count() > b, "count smaller than a completed push's index + 1");
             (a, b)
         })
     };
@@ -81,7 +148,7 @@ fn body_push_push_reader(cap: u32, cols: u32) {
         let v = v.clone();
         let announced = announced.clone();
         loom::thread::spawn(move || {
-            let c = v.push(3, fill);
+            let c = v.push(d(3), fill);
             announced.store(c as usize, O::Release);
             c
         })
@@ -92,39 +159,43 @@ fn body_push_push_reader(cap: u32, cols: u32) {
     let ann = announced.load(O::Acquire);
     if ann != NONE {
         // T2's push happened-before this point
-        let it = v.get(ann as u32).expect("announced (completed) push not visible");
-        assert_eq!(check_item(&it, cols), 3, "announced index holds another item");
-        // the unchecked accessor is legal for an index whose item this thread has seen
-        let it = unsafe { v.get_unchecked(ann as u32) };
-        assert_eq!(check_item(&it, cols), 3, "get_unchecked returns another item than get");
-        assert!(v.count() as usize > ann, "count smaller than a completed push's index + 1");
+        if let Some(it) = soft(v.get(ann as u32), "announced (completed) push not visible") {
+            oracle_eq!(check_item(&it, cols), 3, "announced index holds another item");
+            // the unchecked accessor is legal for an index whose item this thread has seen
+            let it = unsafe { v.get_unchecked(ann as u32) };
+            oracle_eq!(check_item(&it, cols), 3, "get_unchecked returns another item than get");
+        }
+        oracle!(v.count() as usize > ann, "count smaller than a completed push's index + 1");
     }
     for i in 0..4u32 {
         if let Some(it) = v.get(i) {
             seen[i as usize] = check_item(&it, cols);
         }
     }
-    assert_eq!(seen[3], 0, "lookup returned an item for an index nobody was assigned");
+    oracle_eq!(seen[3], 0, "lookup returned an item for an index nobody was assigned");
     let c2 = v.count();
-    assert!(c1 <= c2 && c2 <= 3, "count not monotone or too large: {c1} {c2}");
+    oracle!(c1 <= c2 && c2 <= 3, "count not monotone or too large: {c1} {c2}");
     let (a, b) = t1.join().unwrap();
     let c = t2.join().unwrap();
     let mut idx = vec![a, b, c];
     idx.sort();
-    assert_eq!(idx, vec![0, 1, 2], "indices are not distinct and gap-free");
-    assert_eq!(v.count(), 3);
+    oracle_eq!(idx, vec![0, 1, 2], "indices are not distinct and gap-free");
+    oracle_eq!(v.count(), 3);
     for (i, want) in [(a, 1u64), (b, 2), (c, 3)] {
-        let it = v.get(i).expect("completed push lost");
-        assert_eq!(check_item(&it, cols), want, "index {i} holds another item than its push wrote");
+        let Some(it) = soft(v.get(i), "completed push lost") else {
+            continue;
+        };
+        oracle_eq!(check_item(&it, cols), want, "index {i} holds another item than its push wrote");
         // an item seen earlier must be the same item now
         if seen[i as usize] != 0 {
-            assert_eq!(seen[i as usize], want, "item at index {i} changed");
+            oracle_eq!(seen[i as usize], want, "item at index {i} changed");
         }
     }
-    assert!(v.get(3).is_none());
+    oracle!(v.get(3).is_none());
     outcome(format!("a={a} b={b} c={c} seen={seen:?} c1={c1} c2={c2} ann={}", ann != NONE));
     // dropping the vector (last Arc) must be ordered after every writer
     drop(v);
+    drop_accounting();
 }
 
 /// B2: prefill up to just before a bucket boundary, then push ∥ extend(5) ∥ snapshot reader.
@@ -132,25 +203,97 @@ fn body_boundary(prefill: u32, ext: u32, over_report: bool) {
     body_boundary_(prefill, ext, over_report, false)
 }
 
+/// B2u: as B2, but the batch iterator UNDER-reports its length by one: the call must refuse the
+/// surplus item (it panics) without having written it anywhere - in particular not into the entry
+/// the concurrent push reserved.
+fn body_underreport(prefill: u32, ext: u32) {
+    verif_loom::reset();
+    reset_drops();
+    EXECUTIONS.fetch_add(1, O::Relaxed);
+    let cols = 1;
+    let v: Arc<V> = Arc::new(V::with_capacity(1, cols));
+    for i in 0..prefill {
+        v.push(d(1000 + i as u64), fill);
+    }
+    let t1 = {
+        let v = v.clone();
+        loom::thread::spawn(move || {
+            let a = v.push(d(1), fill);
+            if let Some(it) = soft(v.get(a), "own completed push not visible") {
+                oracle_eq!(check_item(&it, cols), 1);
+            }
+            a
+        })
+    };
+    let t2 = {
+        let v = v.clone();
+        loom::thread::spawn(move || {
+            struct Liar<I>(I, usize);
+            impl<I: Iterator> Iterator for Liar<I> {
+                type Item = I::Item;
+                fn next(&mut self) -> Option<I::Item> {
+                    self.0.next()
+                }
+            }
+            impl<I: Iterator> ExactSizeIterator for Liar<I> {
+                fn len(&self) -> usize {
+                    self.1
+                }
+            }
+            let items: Vec<D> = (0..ext).map(|i| d(10 + i as u64)).collect();
+            let r = std::panic::catch_unwind(std::panic::AssertUnwindSafe(|| v.extend(Liar(items.into_iter(), ext as usize - 1), fill)));
+            oracle!(r.is_err(), "extend accepted more items than its iterator reported");
+        })
+    };
+    let a = t1.join().unwrap();
+    t2.join().unwrap();
+    let reserved = prefill + 1 + (ext - 1);
+    oracle_eq!(v.count(), reserved, "count differs from the number of reserved indices");
+    let mut batch = 0;
+    for i in 0..reserved + 2 {
+        match v.get(i) {
+            None => oracle!(i >= reserved, "a reserved index of an honest prefix is not published"),
+            Some(it) => {
+                let id = check_item(&it, cols);
+                oracle!(i < reserved, "item at an index nobody was assigned");
+                if i < prefill {
+                    oracle_eq!(id, 1000 + i as u64);
+                } else if id == 1 {
+                    oracle_eq!(i, a, "pushed item at another index than push returned");
+                } else {
+                    oracle!(id >= 10 && id < 10 + ext as u64 - 1, "the surplus item of an under-reporting iterator was published");
+                    batch += 1;
+                }
+            }
+        }
+    }
+    oracle_eq!(batch, ext - 1, "items of the reported prefix missing");
+    outcome(format!("a={a}"));
+    drop(v);
+    drop_accounting();
+}
+
 fn body_boundary_(prefill: u32, ext: u32, over_report: bool, prefill_by_push: bool) {
     verif_loom::reset();
+    reset_drops();
     EXECUTIONS.fetch_add(1, O::Relaxed);
     let cols = 1;
     let v: Arc<V> = Arc::new(V::with_capacity(1, cols));
     if prefill_by_push {
         // (a batch prefill ending at index 28 would itself allocate the next bucket eagerly)
         for i in 0..prefill {
-            v.push(1000 + i as u64, fill);
+            v.push(d(1000 + i as u64), fill);
         }
     } else {
-        v.extend((0..prefill).map(|i| 1000 + i as u64).collect::<Vec<_>>().into_iter(), fill);
+        v.extend((0..prefill).map(|i| d(1000 + i as u64)).collect::<Vec<_>>().into_iter(), fill);
     }
     let t1 = {
         let v = v.clone();
         loom::thread::spawn(move || {
-            let a = v.push(1, fill);
-            let it = v.get(a).expect("own completed push not visible");
-            assert_eq!(check_item(&it, cols), 1);
+            let a = v.push(d(1), fill);
+            if let Some(it) = soft(v.get(a), "own completed push not visible") {
+                oracle_eq!(check_item(&it, cols), 1);
+            }
             a
         })
     };
@@ -172,7 +315,7 @@ fn body_boundary_(prefill: u32, ext: u32, over_report: bool, prefill_by_push: bo
             let items: Vec<u64> = (0..ext).map(|i| 10 + i as u64).collect();
             let reported = if over_report { ext as usize + 2 } else { ext as usize };
             let before = v.count();
-            v.extend(Liar(items.into_iter(), reported), fill);
+            v.extend(Liar(items.into_iter().map(d).collect::<Vec<D>>().into_iter(), reported), fill);
             before
         })
     };
@@ -184,11 +327,11 @@ fn body_boundary_(prefill: u32, ext: u32, over_report: bool, prefill_by_push: bo
         .map(|(i, it)| (i, it.map(|it| check_item(&it, cols))))
         .collect();
     let count_after = v.count();
-    assert!(snap_start + snap.len() as u32 <= count_after, "snapshot longer than the count");
+    oracle!(snap_start + snap.len() as u32 <= count_after, "snapshot longer than the count");
     for (pos, (i, it)) in snap.iter().enumerate() {
-        assert_eq!(*i, snap_start + pos as u32, "snapshot indices not consecutive from its start");
+        oracle_eq!(*i, snap_start + pos as u32, "snapshot indices not consecutive from its start");
         if (*i) < prefill {
-            assert_eq!(*it, Some(1000 + *i as u64), "prefilled item missing or wrong in snapshot");
+            oracle_eq!(*it, Some(1000 + *i as u64), "prefilled item missing or wrong in snapshot");
         }
         if it.is_some() {
             n_some += 1;
@@ -198,76 +341,81 @@ fn body_boundary_(prefill: u32, ext: u32, over_report: bool, prefill_by_push: bo
     let a = t1.join().unwrap();
     let _ = t2.join().unwrap();
     let reserved = prefill + 1 + ext + if over_report { 2 } else { 0 };
-    assert_eq!(v.count(), reserved, "count differs from the number of reserved indices");
+    oracle_eq!(v.count(), reserved, "count differs from the number of reserved indices");
     // final content: every index below `reserved` is either the right item or a reserved-never-published hole
     let mut ext_start = None;
     let mut holes = 0;
     for i in 0..reserved + 2 {
         match v.get(i) {
             None => {
-                assert!(i >= prefill, "prefilled item lost");
+                oracle!(i >= prefill, "prefilled item lost");
                 if i < reserved {
                     holes += 1
                 }
             }
             Some(it) => {
                 let id = check_item(&it, cols);
-                assert!(i < reserved, "item at an index nobody was assigned");
+                oracle!(i < reserved, "item at an index nobody was assigned");
                 if i < prefill {
-                    assert_eq!(id, 1000 + i as u64);
+                    oracle_eq!(id, 1000 + i as u64);
                 } else if id == 1 {
-                    assert_eq!(i, a, "pushed item at another index than push returned");
+                    oracle_eq!(i, a, "pushed item at another index than push returned");
                 } else {
                     let k = (id - 10) as u32;
                     let s = i - k;
-                    assert!(ext_start.map_or(true, |e| e == s), "batch items not at consecutive indices");
+                    oracle!(ext_start.map_or(true, |e| e == s), "batch items not at consecutive indices");
                     ext_start = Some(s);
                 }
             }
         }
     }
-    assert_eq!(holes, if over_report { 2 } else { 0 }, "wrong number of unpublished indices");
+    oracle_eq!(holes, if over_report { 2 } else { 0 }, "wrong number of unpublished indices");
     outcome(format!("a={a} ext_start={ext_start:?} snap_len={} some={n_some} last={last:?}", snap.len()));
     drop(v);
+    drop_accounting();
 }
 
 /// B3: two extends racing to allocate the same bucket, no reader.
 fn body_two_extends(prefill: u32, n: u32) {
     verif_loom::reset();
+    reset_drops();
     EXECUTIONS.fetch_add(1, O::Relaxed);
     let cols = 1;
     let v: Arc<V> = Arc::new(V::with_capacity(1, cols));
-    v.extend((0..prefill).map(|i| 1000 + i as u64).collect::<Vec<_>>().into_iter(), fill);
+    v.extend((0..prefill).map(|i| d(1000 + i as u64)).collect::<Vec<_>>().into_iter(), fill);
     let hs: Vec<_> = (0..2u64)
         .map(|t| {
             let v = v.clone();
             loom::thread::spawn(move || {
                 let items: Vec<u64> = (0..n as u64).map(|i| 100 * (t + 1) + i).collect();
-                v.extend(items.into_iter(), fill);
+                v.extend(items.into_iter().map(d).collect::<Vec<D>>().into_iter(), fill);
             })
         })
         .collect();
     for h in hs {
         h.join().unwrap();
     }
-    assert_eq!(v.count(), prefill + 2 * n);
+    oracle_eq!(v.count(), prefill + 2 * n);
     let mut starts = [None, None];
     for i in 0..prefill + 2 * n {
-        let it = v.get(i).expect("published item missing after join");
+        let Some(it) = soft(v.get(i), "published item missing after join") else {
+            continue;
+        };
         let id = check_item(&it, cols);
         if i < prefill {
-            assert_eq!(id, 1000 + i as u64);
+            oracle_eq!(id, 1000 + i as u64);
         } else {
             let t = (id / 100 - 1) as usize;
             let k = (id % 100) as u32;
             let s = i - k;
-            assert!(starts[t].map_or(true, |e| e == s), "batch not consecutive");
+            oracle!(starts[t].map_or(true, |e| e == s), "batch not consecutive");
             starts[t] = Some(s);
         }
     }
-    assert!(v.get(prefill + 2 * n).is_none());
+    oracle!(v.get(prefill + 2 * n).is_none());
     outcome(format!("starts={starts:?}"));
     drop(v);
+    drop_accounting();
 }
 
 fn run_body(name: &str) {
@@ -281,6 +429,8 @@ fn run_body(name: &str) {
         "boundary28-push-extend5-snapshot" => body_boundary_(28, 5, false, true),
         "boundary-push-extend-overreport-snapshot" => body_boundary(27, 4, true),
         "boundary-push-extend2-snapshot@30" => body_boundary(30, 2, false),
+        "push-underreport3" => body_underreport(2, 3),
+        "boundary-push-underreport4" => body_underreport(27, 4),
         "two-extends-same-bucket" => body_two_extends(27, 6),
         "two-extends-small" => body_two_extends(30, 2),
         _ => machinery_failure(&format!("unknown body {name}")),
@@ -295,6 +445,8 @@ const BODIES_QUICK: &[(&str, Option<usize>)] = &[
     ("boundary-push-extend-overreport-snapshot", Some(3)),
     ("two-extends-small", None),
     ("two-extends-same-bucket", None),
+    ("push-underreport3", None),
+    ("boundary-push-underreport4", Some(3)),
 ];
 const BODIES_THOROUGH: &[(&str, Option<usize>)] = &[
     ("push-push-reader", None),
@@ -306,6 +458,8 @@ const BODIES_THOROUGH: &[(&str, Option<usize>)] = &[
     ("boundary-push-extend-overreport-snapshot", Some(4)),
     ("two-extends-small", None),
     ("two-extends-same-bucket", None),
+    ("push-underreport3", None),
+    ("boundary-push-underreport4", Some(4)),
 ];
 
 fn child(name: &str, bound: Option<usize>) -> ! {
@@ -327,6 +481,9 @@ fn child(name: &str, bound: Option<usize>) -> ! {
 
 fn classify(stderr: &str) -> (&'static str, &'static str) {
     // (property the failure belongs to, class)
+    if stderr.contains("drop accounting:") {
+        return ("C11", "drop_accounting");
+    }
     if stderr.contains("Causality violation") || stderr.contains("concurrent") || stderr.contains("Concurrent") {
         ("C09", "causality_violation")
     } else if stderr.contains("use of a bucket that is not allocated") || stderr.contains("double free of a bucket") {
@@ -351,6 +508,7 @@ fn parent(id: &str, tier: &str) -> ! {
                 s.spawn(move || {
                     let out = std::process::Command::new(&exe)
                         .env("E3_TRACKING", if id == "C09" { "1" } else { "0" })
+                        .env("E3_MODE", if id == "C09" { "c09" } else { "c08" })
                         .args(["body", name, &bound.map_or("none".to_owned(), |b| b.to_string())])
                         .output()
                         .unwrap_or_else(|_| machinery_failure("cannot spawn loom child"));
@@ -400,7 +558,7 @@ fn parent(id: &str, tier: &str) -> ! {
                     &format!("{id}/{name}/{class}"),
                     &format!("loom found an execution of body {name} that violates {id}: {class}"),
                     || json!({"body": name, "preemption_bound": bound, "class": class, "loom_output": msg.chars().take(1500).collect::<String>(),
-                              "reproduce": format!("E3_TRACKING={} e3 body {name} {}", if id == "C09" { 1 } else { 0 }, bound.map_or("none".to_owned(), |b| b.to_string()))}),
+                              "reproduce": format!("E3_TRACKING={0} E3_MODE={1} e3 body {name} {2}", if id == "C09" { 1 } else { 0 }, if id == "C09" { "c09" } else { "c08" }, bound.map_or("none".to_owned(), |b| b.to_string()))}),
                 );
             } else {
                 rep.acc.count(&format!("body {name} failed with a {prop} violation ({class}); reported by the {prop} check"), 1);
@@ -502,8 +660,63 @@ fn parent(id: &str, tier: &str) -> ! {
     rep.finish()
 }
 
+/// C11 on the concurrent vector: every body again (value oracle only), reporting the executions in
+/// which an item that was created is not destroyed exactly once after the vector is gone. Prints
+/// one JSON line for the C11 check of the enumeration binary to merge.
+fn c11_loom(tier: &str) -> ! {
+    let bodies = if tier == "thorough" { BODIES_THOROUGH } else { BODIES_QUICK };
+    let exe = std::env::current_exe().unwrap_or_else(|_| machinery_failure("current_exe"));
+    let results: Vec<(usize, std::process::Output)> = std::thread::scope(|s| {
+        let hs: Vec<_> = bodies
+            .iter()
+            .enumerate()
+            .map(|(i, (name, bound))| {
+                let exe = exe.clone();
+                s.spawn(move || {
+                    let out = std::process::Command::new(&exe)
+                        .env("E3_TRACKING", "0")
+                        .env("E3_MODE", "c11")
+                        .args(["body", name, &bound.map_or("none".to_owned(), |b| b.to_string())])
+                        .output()
+                        .unwrap_or_else(|_| machinery_failure("cannot spawn loom child"));
+                    (i, out)
+                })
+            })
+            .collect();
+        hs.into_iter().map(|h| h.join().unwrap()).collect()
+    });
+    let mut executions = 0u64;
+    let mut viols = Vec::new();
+    let mut notes = Vec::new();
+    for (i, out) in results {
+        let (name, bound) = bodies[i];
+        let stdout = String::from_utf8_lossy(&out.stdout).to_string();
+        let stderr = String::from_utf8_lossy(&out.stderr).to_string();
+        if out.status.success() {
+            let v: Value = serde_json::from_str(stdout.lines().last().unwrap_or("")).unwrap_or(Value::Null);
+            executions += v["executions"].as_u64().unwrap_or(0);
+        } else {
+            let (prop, class) = classify(&stderr);
+            let msg: String = stderr.lines().filter(|l| l.contains("panicked") || l.contains("drop accounting") || l.contains("assert")).take(8).collect::<Vec<_>>().join(" | ");
+            if prop == "C11" {
+                viols.push(json!({"sig": format!("C11/loom/{name}/{class}"), "what": format!("loom found an execution of body {name} in which an item is not destroyed exactly once"),
+                                  "example": {"body": name, "preemption_bound": bound, "loom_output": msg.chars().take(1200).collect::<String>(),
+                                              "reproduce": format!("E3_TRACKING=0 e3 body {name} {}", bound.map_or("none".to_owned(), |b| b.to_string()))}}));
+            } else {
+                notes.push(format!("body {name} stopped early by a {prop} violation ({class})"));
+            }
+        }
+    }
+    let all_unbounded = bodies.iter().all(|(_, b)| b.is_none());
+    println!("{}", json!({"executions": executions, "bodies": bodies.len(), "violations": viols, "notes": notes, "all_unbounded": all_unbounded}));
+    std::process::exit(0)
+}
+
 fn main() {
     let args: Vec<String> = std::env::args().collect();
+    if args.len() >= 3 && args[1] == "c11-loom" {
+        c11_loom(&args[2]);
+    }
     if args.len() >= 4 && args[1] == "body" {
         let bound = args[3].parse::<usize>().ok();
         child(&args[2], bound);
@@ -518,6 +731,14 @@ fn main() {
         let case = &v["cases"][0];
         let name = case["body"].as_str().unwrap_or("push-push-reader").to_owned();
         let bound = case["preemption_bound"].as_u64().map(|b| b as usize);
+        // same settings as the check that wrote the replay file
+        let (tracking, mode) = match args[2].as_str() {
+            "C09" => ("1", "c09"),
+            "C11" => ("0", "c11"),
+            _ => ("0", "c08"),
+        };
+        std::env::set_var("E3_TRACKING", tracking);
+        std::env::set_var("E3_MODE", mode);
         child(&name, bound);
     }
     machinery_failure("usage: e3 <C08|C09> <quick|thorough> | e3 body <name> <bound|none> | e3 replay <id> <file>");
